@@ -13,11 +13,10 @@ from .core import (Conc, Z, TupV, ExcV, ObjV, BoundM, FuncV, OPAQUE_STR, OpaqueS
                    Untranslatable, PathEnd, fresh, _Break, _Continue)
 from .objtheory import ObjTheory, sval, S, I, B, strlen, strcat, lit
 
-set_has = z3.Function("strset_has", I, S, B)          # (table id, member)
+from .tables import TableMixin, set_has, pairs_has       # noqa: E402  (table id, member)
 map_has = z3.Function("strmap_has_key", I, S, B)
 map_get = z3.Function("strmap_get", I, S, S)
 map_hasval = z3.Function("strmap_has_value", I, S, B)
-pairs_has = z3.Function("pairs_has", I, S, S, B)
 pairs_len = z3.Function("pairs_len", I, I)
 sub_in = z3.Function("str_is_substring", S, S, B)     # (needle, haystack)
 charat = z3.Function("str_char_at", S, I, S)
@@ -59,7 +58,7 @@ def optstr(none, val):
     return ObjV("optstr", info={"none": none, "val": val})
 
 
-class LexTheory(ObjTheory):
+class LexTheory(TableMixin, ObjTheory):
     name = "T_lex"
     feasible_axioms = False
     candidate_models = True
@@ -70,6 +69,7 @@ class LexTheory(ObjTheory):
         return super().axioms() + [
             z3.ForAll([a, b], strlen(strcat(a, b)) == strlen(a) + strlen(b), patterns=[strcat(a, b)]),
             z3.ForAll([k], pairs_len(k) >= 0, patterns=[pairs_len(k)]),
+            z3.ForAll([k, a, b], z3.Implies(pairs_has(k, a, b), pairs_len(k) > 0), patterns=[pairs_has(k, a, b)]),
             z3.ForAll([k, a, b], z3.Implies(z3.And(only_c(k), pairs_has(k, a, b)), z3.And(a == lit("/*"), b == lit("*/"))),
                       patterns=[z3.MultiPattern(only_c(k), pairs_has(k, a, b))]),
             z3.ForAll([k, a], z3.Implies(map_has(k, a), map_hasval(k, map_get(k, a))), patterns=[map_get(k, a)]),
@@ -240,6 +240,12 @@ class LexTheory(ObjTheory):
         return super().truth(ex, v)
 
     # ---- calls -----------------------------------------------------------------------
+    def dict_display(self, ex, keys, values):
+        """{"state": s, "end": e} is dict(state=s, end=e)"""
+        if all(isinstance(k, Conc) and isinstance(k.v, str) for k in keys):
+            return self.call(ex, FuncV("dict"), [], {k.v: v for k, v in zip(keys, values)}, None)
+        raise Untranslatable("dict display")
+
     def call(self, ex, fv, args, kwargs, node):
         if isinstance(fv, FuncV) and fv.name == "dict":
             if args or set(kwargs) != {"state", "end"}:
@@ -261,7 +267,7 @@ class LexTheory(ObjTheory):
                 raise Untranslatable("Token(...)")
             return ObjV("token", info={"text": t})
         if isinstance(fv, FuncV) and fv.name == "tuple":
-            if len(args) == 1 and isinstance(args[0], ObjV) and args[0].role == "opaque-gen":
+            if len(args) == 1 and isinstance(args[0], ObjV) and args[0].role in ("opaque-gen", "genexp") and "src" in args[0].info:
                 return ObjV("opaque-tuple", info={"id": tid("expr:" + args[0].info["src"]), "src": args[0].info["src"]})
             raise Untranslatable("tuple(...)")
         if isinstance(fv, FuncV) and fv.name == "enumerate":
@@ -305,8 +311,14 @@ class LexTheory(ObjTheory):
         return super().b_len(ex, args, kwargs)
 
     def comprehension(self, ex, node):
-        # tuple(p[0] for p in g.comments): a tuple of texts taken from a grammar table, named by its expression
-        return ObjV("opaque-gen", info={"src": ast.unparse(node)})
+        # a generator expression over a grammar table: consumed by any() / all() as a quantifier, or by tuple() as a tuple of
+        # texts named by its expression (tuple(p[0] for p in g.comments))
+        try:
+            v = super().comprehension(ex, node)
+            v.info["src"] = ast.unparse(node)
+            return v
+        except Untranslatable:
+            return ObjV("opaque-gen", info={"src": ast.unparse(node)})
 
     def havoc_value(self, ex, old, nm):
         if isinstance(old, ObjV) and old.role == "rec":
@@ -324,35 +336,10 @@ class LexTheory(ObjTheory):
         ex.st.ghost.setdefault("calls_done", []).append(c.target)
         super().after_call(ex, c, pre, post)
 
-    # ---- loops over a pair table -----------------------------------------------------------
     def for_loop(self, ex, node, itv, spec, ordn):
         if isinstance(itv, ObjV) and itv.role == "enum-chars" and getattr(spec, "step", None) is not None:
             return self.step_loop(ex, node, itv, spec, ordn)
-        if not (isinstance(itv, ObjV) and itv.role == "pairs"):
-            raise Untranslatable(f"for loop over {itv!r}")
-        q = ex.fv.qual
-        lname = f"loop#{ordn}"
-        for nm, f in spec.inv(ex.env, ex.st, None):
-            ex.oblige(f"{q}:{lname}:inv-established:{nm}", f)
-        ex.havoc_loop(node, spec)
-        for nm, f in spec.inv(ex.env, ex.st, None):
-            ex.st.assume(f)
-        if ex.path.choose(2, f"for@{node.lineno}") == 0:
-            a, b = fresh("pair_open", S), fresh("pair_close", S)
-            ex.st.assume(pairs_has(itv.info["id"], a, b))
-            ex.st.assume(pairs_len(itv.info["id"]) > 0)
-            ex.assign(node.target, TupV([Z("str", a), Z("str", b)]))
-            try:
-                ex.stmts(node.body)
-            except _Break:
-                return
-            except _Continue:
-                pass
-            for nm, f in spec.inv(ex.env, ex.st, None):
-                ex.oblige(f"{q}:{lname}:inv-preserved:{nm}", f)
-            raise PathEnd()
-        ex.stmts(node.orelse)
-
+        return super().for_loop(ex, node, itv, spec, ordn)
 
     def step_loop(self, ex, node, itv, spec, ordn):
         """`for i, char in enumerate(text)` with a one-iteration contract: the loop-carried variables are arbitrary at the
